@@ -1,7 +1,7 @@
 (* go-ethereum's StateDB model (Model/GethStateDB.v) refines the abstract EVM-view machine (Model/EvmAbs.v):
    every disciplined operation succeeds, returns the abstract observation (up to norm_obs) and leaves a
    state whose abstraction is the abstract successor. *)
-From Coq Require Import Lia ZArith List Bool FunctionalExtensionality Sorted.
+From Coq Require Import Lia ZArith List Bool Sorted.
 From Evm Require Import EvmAbs GethStateDB EvmAbsProofs.
 Import ListNotations.
 Open Scope Z_scope.
@@ -31,6 +31,11 @@ Definition wf_g (s : gst) : Prop :=
   Forall (fun ic => 0 <= fst ic < g_next s) (g_revs s) /\
   (g_alvalid s = false -> g_revs s = []).
 
+Section WithFE.
+Hypothesis FE : funext_stmt.
+Let upd_id {V : Type} := @upd_id FE V.
+Let upd_upd {V : Type} := @upd_upd FE V.
+
 (* ------------------------------------------------------------------ views of the helper functions *)
 
 Lemma acore_eq : forall c1 c2, a_accs c1 = a_accs c2 -> a_side c1 = a_side c2 -> c1 = c2.
@@ -45,7 +50,7 @@ Proof. intros [f s] a x y. unfold set_acc. cbn [a_accs a_side]. rewrite upd_upd.
 Lemma absg_core_set : forall v c a o, absg_core v (g_set c a o) = set_acc (absg_core v c) a (gview (Some o)).
 Proof.
   intros. unfold absg_core, g_set, set_acc. cbn [g_objs g_side a_accs a_side]. f_equal.
-  apply functional_extensionality. intro x. unfold upd. destruct (x =? a); reflexivity.
+  apply FE. intro x. unfold upd. destruct (x =? a); reflexivity.
 Qed.
 
 Lemma absg_core_dirty : forall v o d d' s, absg_core v (mkGcore o d s) = absg_core v (mkGcore o d' s).
@@ -189,7 +194,7 @@ Proof.
   unfold g_empty in Ee. apply andb_true_iff in Ee. destruct Ee as [Ee Ec]. apply andb_true_iff in Ee. destruct Ee as [En Eb].
   apply Z.eqb_eq in En, Eb, Ec. cbn [gview]. unfold aacc0.
   destruct (Hok En Ec) as [Hs _]. cbn [gview a_stor] in Hs.
-  assert (g_stor o = zf) by (apply functional_extensionality; exact Hs).
+  assert (g_stor o = zf) by (apply FE; exact Hs).
   rewrite En, Eb, Ec, H. reflexivity.
 Qed.
 
@@ -197,7 +202,7 @@ Lemma clean_finalise_id : forall o, (forall k, g_stor o k = g_orig o k) -> g_sui
   a_finalise_acc (gview (Some o)) = gview (Some o).
 Proof.
   intros o Hs Hsui. unfold a_finalise_acc. cbn [gview a_sd a_nonce a_bal a_code a_stor]. rewrite Hsui.
-  assert (g_stor o = g_orig o) by (apply functional_extensionality; exact Hs). rewrite <- H. reflexivity.
+  assert (g_stor o = g_orig o) by (apply FE; exact Hs). rewrite <- H. reflexivity.
 Qed.
 
 Lemma finalise_view : forall c ds,
@@ -205,7 +210,7 @@ Lemma finalise_view : forall c ds,
   (forall a, stor_ok (gview (g_objs c a))) ->
   (fun a => gview (g_finalise_loop (g_objs c) ds a)) = (fun a => a_finalise_acc (gview (g_objs c a))).
 Proof.
-  intros c ds Hc Hsub Hok. apply functional_extensionality. intro a. rewrite finalise_loop_spec.
+  intros c ds Hc Hsub Hok. apply FE. intro a. rewrite finalise_loop_spec.
   destruct (memZ a ds) eqn:E.
   - apply gfin_view. apply Hok.
   - destruct (g_objs c a) as [o|] eqn:Eo; [|reflexivity].
@@ -491,3 +496,5 @@ Proof.
       apply clean_after_finalise. intros a o Ho Hm. apply (Hclean a o Ho).
       destruct (g_ripemd s); cbn [memZ] in Hm; [apply orb_false_iff in Hm; exact (proj2 Hm)|exact Hm].
 Qed.
+
+End WithFE.
